@@ -1,4 +1,3 @@
 SPECIFICATION Spec
-CONSTANT MaxLen = 4
 INVARIANT Emit
 CHECK_DEADLOCK FALSE
